@@ -85,6 +85,10 @@ def gen_case(rng, boundary=None):
     parts.append("I " + " ".join(map(str, init)))
     for b, a in asm.items():
         parts.append("A %d %d %s" % (b, len(a), " ".join(map(str, a))))
+    if rng.random() < 0.3:
+        # the same engine object has been run before (from the CFG entry, other initial states):
+        # the answer must not depend on it
+        parts.append("P " + " ".join(map(str, sorted(set(rng.randrange(S) for _ in range(rng.randint(1, S)))))))
     return " | ".join(parts)
 
 
